@@ -1,10 +1,10 @@
 SPECIFICATION Spec
-CONSTANT Cfg <- MCCfg1
-CONSTANT MaxDepth = 3
+CONSTANT Cfg <- MCCfg1T3
+CONSTANT MaxDepth = 4
 CONSTANT StartRows <- QuickRows
 CONSTANT StartCols <- QuickCols
 CONSTANT CarryCells <- QuickCells
-CONSTANT CarryShelves <- OneShelf
+CONSTANT CarryShelves <- AllShelves
 CONSTRAINT Bounded
 INVARIANT Protocol
 INVARIANT MaskSound
